@@ -3,6 +3,8 @@
 Oracle: equality of session key, block list (tag order + attributes; pass-through
 blocks by raw bytes) and content with the model of what was written."""
 import io
+import os
+import tempfile
 
 from ..ctx import fmt_exc
 from ..gen import bec2 as GB
@@ -41,7 +43,7 @@ def mandatory_bins(tier):
     b += ["key_trailing_zero_%d" % z for z in (1, 2, 3, 15)]
     b += ["crc_lo_00:cust", "crc_hi_00:cust", "crc_both_00:cust", "crc_lo_00:update", "crc_hi_00:update", "crc_both_00:update",
           "decryptors_all", "decryptors_single", "decryptors_partial", "pass_through_block", "encrypted_config_component", "customer_key_present", "customer_key_absent",
-          "version_00", "version_ff", "version_80", "code_all_zero", "code_ends_00", "config_blob_trailing_zero_padding", "key_all_zero", "ecc_distractor_decryptors_before_the_matching_one", "ecc_distractor_encryptors_on_write", "second_write_after_replacing_a_block_of_the_same_kind", "foreign_blocks_of_unknown_kind", "session_key_contains_customer_key"]
+          "version_00", "version_ff", "version_80", "code_all_zero", "code_ends_00", "config_blob_trailing_zero_padding", "key_all_zero", "ecc_distractor_decryptors_before_the_matching_one", "ecc_distractor_encryptors_on_write", "second_write_after_replacing_a_block_of_the_same_kind", "foreign_blocks_of_unknown_kind", "session_key_contains_customer_key", "file_name_instead_of_stream", "read_with_mac_check_off"]
     return b
 
 
@@ -105,13 +107,34 @@ def check_case(ns, ctx, case, conf, key, specs, subsets):
     if has_ecc and len(case.comps) % 2 == 0:
         wenc = distractors(2) + wenc
         ctx.bin("ecc_distractor_encryptors_on_write")
+    path = None
+    if (key[1] + len(specs)) % 4 == 0:
+        # file NAME instead of an open stream, for writing and for reading
+        fd, path = tempfile.mkstemp(prefix="c02-", suffix=".bec2", dir=os.environ.get("VERIF_SCRATCH"))
+        os.close(fd)
+        ctx.bin("file_name_instead_of_stream")
     try:
-        f.write_file(buf, wenc)
+        f.write_file(path if path else buf, wenc)
         ctx.mon("write_file")
     except Exception as e:
+        if path:
+            os.unlink(path)
         ctx.violation("writer_raises_on_object_in_domain", {"exc": fmt_exc(e)}, rp)
         return
-    text = buf.getvalue()
+    if path:
+        with open(path) as fh:
+            text = fh.read()
+    else:
+        text = buf.getvalue()
+    try:
+        _check_reads(ns, ctx, B, specs, subsets, key, text, path, has_ecc, distractors, mcase, rp)
+    finally:
+        if path:
+            os.unlink(path)
+    _second_write(ns, ctx, B, f, specs, case, key, wenc, rp)
+
+
+def _check_reads(ns, ctx, B, specs, subsets, key, text, path, has_ecc, distractors, mcase, rp):
     try:
         _, binary = L.parse_text(text)
         written_blocks, _pos = L.parse_bec2_header(binary)
@@ -130,8 +153,12 @@ def check_case(ns, ctx, case, conf, key, specs, subsets):
         if has_ecc and any(specs[i]["kind"] == "ecc" for i in subset) and len(subset) % 2 == 1:
             renc = distractors(3) + renc
             ctx.bin("ecc_distractor_decryptors_before_the_matching_one")
+        # reading with the MAC check switched off must give the same result for an authentic file
+        cm = not (len(subset) + key[2]) % 3 == 0
+        if not cm:
+            ctx.bin("read_with_mac_check_off")
         try:
-            back = B.Bec2File.read_file(io.StringIO(text), renc, True)
+            back = B.Bec2File.read_file(path if path else io.StringIO(text), renc, cm)
             ctx.mon("read_file")
         except Exception as e:
             kinds = "+".join(specs[i]["kind"] for i in sorted(subset))
@@ -157,6 +184,9 @@ def check_case(ns, ctx, case, conf, key, specs, subsets):
         d = G.diff_file(back.bf3file, mcase)
         if d:
             ctx.violation("content_differs:" + d[0].split("[")[0], {"diff": d}, dict(rp, subset=sorted(subset)))
+
+
+def _second_write(ns, ctx, B, f, specs, case, key, wenc, rp):
     # ---- history: the SAME Bec2File object, one block replaced by another of the same kind, same encryptor list ----
     upd = [i for i, s in enumerate(specs) if s["kind"] == "update"]
     if upd:
